@@ -321,8 +321,13 @@ def shash(s):
     return acc
 
 
+def unlimbs(l):
+    return sum(x << (9 * i) for i, x in enumerate(l))
+
+
 def dec_observe(t):
     ks, ln, bl, hk, s, rp, dp, gn = t
+    s, rp, dp = unlimbs(s), unlimbs(rp), unlimbs(dp)
     return {
         'keys': [dec_str(x) for x in ks], 'len': ln, 'bool': bl, 'haskeys': hk,
         'str': s, 'repr': rp, 'dump': dp,
